@@ -202,6 +202,10 @@ func replay(args []string) {
 				case "next":
 					its[st.J].Next()
 					ret = true
+				case "iclone":
+					c := its[st.J].Clone()
+					its[st.K] = &c
+					ret = true
 				default:
 					panic("unknown action " + st.A)
 				}
@@ -323,6 +327,7 @@ type ev struct {
 	T     int    `json:"t"`
 	T2    int    `json:"t2"`
 	J     int    `json:"j"`
+	J2    int    `json:"j2"`
 	K     int    `json:"k"`
 	Res   bool   `json:"res"`
 	Ok    bool   `json:"ok"`
@@ -445,16 +450,28 @@ func oneOp(rng *rand.Rand, x, pIns, pDel, nkeys, minkey int, trees []*AvlTree, i
 			case x < pIns+pDel+37:
 				// SafeIterator = Clone + Iterator on a hidden snapshot: two events
 				snap := NT + j
+				retireSnap(its, itTree, snap, j)
 				out.Put(ev{E: "clone", T: t, T2: snap, Shape: vh.M{"nil": true}})
 				its[j], itTree[j] = trees[t].SafeIterator(), snap
 				e.E, e.J, e.T = "iter", j, snap
 				e.Ok, e.Get = its[j].Ok(), its[j].Get()
 			case x < pIns+pDel+40:
 				snap := NT + j
+				retireSnap(its, itTree, snap, j)
 				out.Put(ev{E: "clone", T: t, T2: snap, Shape: vh.M{"nil": true}})
 				its[j], itTree[j] = trees[t].SafeIteratorFrom(k), snap
 				e.E, e.J, e.T = "from", j, snap
 				e.Ok, e.Get = its[j].Ok(), its[j].Get()
+			case x < pIns+pDel+43:
+				// AvlIterator.Clone(): an independent cursor at the same position
+				j2 := 1 + rng.Intn(NI)
+				if j2 == j || its[j] == nil {
+					return e, true
+				}
+				c := its[j].Clone()
+				its[j2], itTree[j2] = &c, itTree[j]
+				e.E, e.J, e.J2, e.T = "iclone", j, j2, itTree[j]
+				e.Ok, e.Get = its[j2].Ok(), its[j2].Get()
 			default:
 				e.E = "find"
 				nd := trees[t].FindNode(k)
@@ -462,6 +479,16 @@ func oneOp(rng *rand.Rand, x, pIns, pDel, nkeys, minkey int, trees []*AvlTree, i
 				e.HasSh, e.Shape = true, shapeOf(trees[t])
 			}
 			return e, false
+		}
+	}
+}
+
+// a cloned cursor may still walk the hidden snapshot of a safe iterator whose id is about to be
+// reused: the recorder retires it so that snapshot ids stay unambiguous
+func retireSnap(its []*AvlIterator, itTree []int, snap, keep int) {
+	for q := 1; q <= NI; q++ {
+		if q != keep && itTree[q] == snap {
+			its[q] = nil
 		}
 	}
 }
